@@ -3,7 +3,7 @@
    heal   - ChaperoneLoop.heal (operon_ai/healing/chaperone_loop.py): plan = [kind, limit = max_retries, script = outcome per attempt
             ("valid" | "invalid" | "echo" | "raise")]
    swarm  - RegenerativeSwarm.supervise (regenerative_swarm.py): plan = [kind, limit = max_regenerations, steps = max_steps_per_worker,
-            thr = entropy threshold in tenths, script = policy per worker ("unique" | "repeat" | "alt" | "marker<k>" | "raise<k>")]
+            thr = entropy threshold in tenths, script = policy per worker ("unique" | "repeat" | "blank" (empty output every step) | "alt" | "marker<k>" | "raise<k>")]
    tools  - Nucleus.transcribe_with_tools (nucleus.py): plan = [kind, limit = max_iterations, script = provider reply per round ("tools" | "plain")]
    The machine counts invocations of the adversary (calls), of worker steps (per worker) and of the final plain completion. *)
 EXTENDS Naturals, Sequences, FiniteSets, TLC
@@ -39,7 +39,7 @@ WorkerStep ==
   /\ LET n == steps[Len(steps)] IN
      IF n >= plan.steps THEN NextWorker                                  \* step limit
      ELSE LET s == n + 1
-              out == CASE Policy = "repeat" -> 0 [] Policy = "alt" -> s % 2 [] OTHER -> s    \* output identity of this step
+              out == CASE Policy \in {"repeat", "blank"} -> 0 [] Policy = "alt" -> s % 2 [] OTHER -> s    \* output identity of this step
               w2 == IF Len(window) >= 3 THEN Append(Tail(window), out) ELSE Append(window, out)
           IN /\ steps' = [steps EXCEPT ![Len(steps)] = s]
              /\ IF IsRaise(Policy) /\ Digit(Policy) = s THEN Stop("exception") /\ UNCHANGED <<k, calls, window>>
